@@ -6,6 +6,8 @@ UNITS = {
   'case': dict(src=['harness/w_c16.cc', HH], mode='inl', roots=['vp_lower', 'vp_equal', 'vp_equal_static']),
 }
 HARNESSES = [
+  dict(name='case_fold_l1', units=['case'], file='c16_case.c', defs={'L': 1}, unwind=6, bound='all pairs of strings of length <= 1 over all 256 byte values (every single byte against every single byte)',
+       desc='(a) as case_fold, the single-character base case: exactly the 26 ASCII letter pairs are identified'),
   dict(name='case_fold', units=['case'], file='c16_case.c', defs={'L': 3}, unwind=8, thorough=dict(defs={'L': 6}, unwind=11),
        bound='all pairs of strings of length <= 3 (thorough 6) over all 256 byte values',
        desc='(a) LowercaseEqual <=> equal toLowercase images (hash/equality consistency, any capitalisation found); toLowercase == C-locale fold; LowercaseEqualStatic agrees',
